@@ -122,6 +122,11 @@ func infoFromCell(cell *hrpc.Cell) (hrpc.RegionInfo, error) {
 	if !bytes.HasPrefix(cell.Row, prefix) {
 		return nil, fmt.Errorf("invalid region name in %q", cell)
 	}
+	// What follows is the region id, a number. The regions cache is searched
+	// with "table,key,:" and panics if that is the name of a cached region.
+	if id := cell.Row[len(prefix):]; len(id) == 0 || id[0] < '0' || id[0] > '9' {
+		return nil, fmt.Errorf("invalid region id in %q", cell)
+	}
 
 	return NewInfo(
 		regInfo.GetRegionId(),
